@@ -180,10 +180,47 @@ fn check(c: &Case, obs: &mut Obs) -> Result<(), Fail> {
     Ok(())
 }
 
+/// The checked constructors the statement compares decoding with: zero is refused, everything else is kept as given,
+/// and what they build encodes to an integer that decodes back to the same value.
+fn check_ctor(v: &i128, obs: &mut Obs) -> Result<(), Fail> {
+    let v = *v;
+    if (0..=u64::MAX as i128).contains(&v) {
+        let r = PositiveCoin::try_from(v as u64);
+        obs.class(if v == 0 { "ctor:positive-coin:zero" } else { "ctor:positive-coin:non-zero" });
+        match r {
+            Ok(p) => {
+                pv_ensure!(v != 0, "zero-accepted:PositiveCoin::try_from", "PositiveCoin::try_from(0) is Ok");
+                pv_ensure!(u64::from(p) == v as u64, "ctor-value-changed:PositiveCoin", "PositiveCoin::try_from({v}) holds {}", u64::from(p));
+                let bytes = minicbor::to_vec(p).map_err(|e| Fail { sig: "ctor-encode-failed:PositiveCoin".into(), msg: e.to_string() })?;
+                let back: Result<PositiveCoin, _> = minicbor::decode(&bytes);
+                pv_ensure!(matches!(back, Ok(b) if u64::from(b) == v as u64), "ctor-roundtrip:PositiveCoin", "PositiveCoin({v}) encodes to {} which does not decode back", hex::encode(&bytes));
+            }
+            Err(_) => pv_ensure!(v == 0, "non-zero-refused:PositiveCoin::try_from", "PositiveCoin::try_from({v}) is Err"),
+        }
+    }
+    if (i64::MIN as i128..=i64::MAX as i128).contains(&v) {
+        let r = NonZeroInt::try_from(v as i64);
+        obs.class(if v == 0 { "ctor:non-zero-int:zero" } else { "ctor:non-zero-int:non-zero" });
+        match r {
+            Ok(p) => {
+                pv_ensure!(v != 0, "zero-accepted:NonZeroInt::try_from", "NonZeroInt::try_from(0) is Ok");
+                pv_ensure!(i64::from(p) == v as i64, "ctor-value-changed:NonZeroInt", "NonZeroInt::try_from({v}) holds {}", i64::from(p));
+                let bytes = minicbor::to_vec(p).map_err(|e| Fail { sig: "ctor-encode-failed:NonZeroInt".into(), msg: e.to_string() })?;
+                let back: Result<NonZeroInt, _> = minicbor::decode(&bytes);
+                pv_ensure!(matches!(back, Ok(b) if i64::from(b) == v as i64), "ctor-roundtrip:NonZeroInt", "NonZeroInt({v}) encodes to {} which does not decode back", hex::encode(&bytes));
+            }
+            Err(_) => pv_ensure!(v == 0, "non-zero-refused:NonZeroInt::try_from", "NonZeroInt::try_from({v}) is Err"),
+        }
+    }
+    obs.nontrivial_if(v == 0);
+    Ok(())
+}
+
 pub fn run(s: &Session) {
     s.set_rule("integers (all five head widths, both signs, boundary magnitudes) decoded as PositiveCoin / NonZeroInt \
         directly and at the asset-quantity, mint and donation positions of cborx-built Conway values and transaction \
-        bodies. Oracle: zero => Err; admissible non-zero => Ok with the encoded number; Ok never holds 0. \
+        bodies. Oracle: zero => Err; admissible non-zero => Ok with the encoded number; Ok never holds 0; the checked constructors \
+        (try_from) refuse exactly zero, keep every other value and what they build round-trips. \
         Non-trivial = the probed position holds a zero; distinct = distinct (site, width, sibling slot)");
     let mags: Vec<u64> = vec![0, 1, 2, 23, 24, 255, 256, 65535, 65536, u32::MAX as u64, 1 << 32, (1 << 63) - 1, 1 << 63, u64::MAX];
     let mut fam = vec![];
@@ -199,6 +236,15 @@ pub fn run(s: &Session) {
         }
     }
     s.foreach("boundary-family", fam, true, check);
+    let mut ctor: Vec<i128> = vec![];
+    for &m in &mags {
+        ctor.push(m as i128);
+        ctor.push(-(m as i128));
+        ctor.push(-(m as i128) - 1);
+    }
+    ctor.sort();
+    ctor.dedup();
+    s.foreach("checked-constructors", ctor, true, check_ctor);
     s.forall(
         "random",
         s.pick(200_000, 4_000_000),
